@@ -207,6 +207,8 @@ def impl(c):
                         stored = bytes(loc.data_store[idx][sub])
                         return [back, local, stored]
                     out.append(guarded(one))
+                    if c["mode"] != "inline" and sum(isinstance(x, Err) for x in out) >= 2:
+                        break       # the batch has failed already; every further failure costs time-outs
                 if c["mode"] == "inline" and c.get("trace"):
                     out.append([[f[0], f[1]] for f in bus.frames])
                 _SCHED[_ckey(c)] = scheds
